@@ -116,6 +116,18 @@ class Engine:
                              "sched": [s.randrange(0, 7) for _ in range(4 * len(docnames) + 8)]})
         if tier == "thorough" and s.random() < 0.03:
             variants.append({"kind": "real_parallel", "nproc": s.randint(2, 4)})
+        # incremental rebuilds: a full serial build, then edits, then a second build that reads only the
+        # outdated documents - serially (the reference for this variant) or under a simulated schedule
+        e = stream(seed_run, "edits")
+        if e.random() < 0.6:
+            edits = _gen_edits(e, files, proj, docnames)
+            for _ in range(e.choice([1, 2])):
+                nproc = e.randint(2, 5)
+                nchunks = e.randint(2, max(2, min(len(docnames), 5)))
+                variants.append({"kind": "incremental", "edits": edits, "nproc": nproc,
+                                 "read_chunks": {d: e.randrange(nchunks) for d in docnames},
+                                 "write_chunks": {d: e.randrange(e.randint(1, 3)) for d in docnames},
+                                 "sched": [e.randrange(0, 7) for _ in range(4 * len(docnames) + 8)]})
         return {"engine": self.name, "files": files, "cfg": cfg, "builder": s.choice(["xml", "xml", "xml", "html"]),
                 "variants": variants}
 
@@ -152,8 +164,30 @@ class Engine:
             count("reference_builds")
             count("reference_status:" + ref["obs"][0])
             docnames = sorted(k[:-3] for k in plan["files"] if k.endswith(".md"))
+            serial_ref = ref
+            inc_refs: dict = {}
             for vi, var in enumerate(plan["variants"]):
-                st, res = proc.run_in_child(_build, (plan, root, var, f"v{vi}"), timeout=400)
+                ref = serial_ref
+                if var["kind"] == "incremental":
+                    ekey = sha(repr(sorted(var["edits"].items())))[:16]
+                    if ekey not in inc_refs:
+                        st, r2 = proc.run_in_child(
+                            _build, (plan, root, {"kind": "incremental", "edits": var["edits"], "second": "serial"},
+                                     f"iref{vi}"), timeout=600)
+                        sut.write_tree(root, plan["files"])
+                        if st == "exc":
+                            raise RuntimeError(f"incremental reference build failed in harness code: {r2}")
+                        inc_refs[ekey] = r2
+                        count("reference_builds_incremental")
+                        log.add("obs", key=f"incremental-serial-{ekey}", sha256=sha(repr(r2["obs"]))[:16])
+                        if r2.get("reread") is not None:
+                            count("incremental_docs_reread", len(r2["reread"]))
+                            if 0 < len(r2["reread"]) < len(docnames):
+                                count("probe_incremental_build_reread_a_strict_subset")
+                    ref = inc_refs[ekey]
+                st, res = proc.run_in_child(_build, (plan, root, var, f"v{vi}"), timeout=600)
+                if var["kind"] == "incremental":
+                    sut.write_tree(root, plan["files"])
                 if st == "exc":
                     raise RuntimeError(f"variant build failed in harness code: {res}")
                 evals += 1
@@ -162,10 +196,10 @@ class Engine:
                     log.add("sched", v=vi, ev=ev)
                 log.add("obs", key=f"v{vi}", sha256=sha(repr(res["obs"]))[:16])
                 _probes(plan, var, res, count, docnames)
-                if var["kind"] == "parallel":
+                if var["kind"] in ("parallel", "incremental"):
                     nchunks = len({c for c in var["read_chunks"].values()})
                     if nchunks >= 2:
-                        nontrivial.add(sha(pdig + repr(res.get("events")))[:16])
+                        nontrivial.add(sha(pdig + repr(var.get("edits")) + repr(res.get("events")))[:16])
                 elif var["kind"] == "shuffled" and var["order"] != docnames:
                     nontrivial.add(sha(pdig + repr(var["order"]))[:16])
                 if ref["obs"][0] == "exc" and res["obs"][0] == "exc":
@@ -219,13 +253,18 @@ class Engine:
                     v = dict(v)
                     if v["kind"] == "shuffled":
                         v["order"] = [d for d in v["order"] if d != name]
-                    elif v["kind"] == "parallel":
+                    elif v["kind"] in ("parallel", "incremental"):
                         v["read_chunks"] = {d: c for d, c in v["read_chunks"].items() if d != name}
                         v["write_chunks"] = {d: c for d, c in v["write_chunks"].items() if d != name}
+                        if "edits" in v:
+                            v["edits"] = {k: c for k, c in v["edits"].items() if k != rel}
                     nv.append(v)
                 yield {**plan, "files": nf, "variants": nv}
         # simpler schedule
-        if len(vs) == 1 and vs[0]["kind"] == "parallel":
+        if len(vs) == 1 and vs[0]["kind"] == "incremental" and len(vs[0]["edits"]) > 1:
+            for k in sorted(vs[0]["edits"]):
+                yield {**plan, "variants": [{**vs[0], "edits": {a: b for a, b in vs[0]["edits"].items() if a != k}}]}
+        if len(vs) == 1 and vs[0]["kind"] in ("parallel", "incremental"):
             v = vs[0]
             if any(v["sched"]):
                 yield {**plan, "variants": [{**v, "sched": []}]}
@@ -293,9 +332,46 @@ def _build(plan, root, var, tag):
         parallel = max(2, var["nproc"])
     elif kind == "real_parallel":
         parallel = var["nproc"]
-    r = sut.sphinx_build(root, tag, root, conf, builder=plan["builder"], parallel=parallel, hooks=hooks)
+    reread = None
+    if kind == "incremental":
+        import time
+
+        from ..seams.clock import EPOCH_US
+
+        clk = getattr(time.time, "__self__", None)
+        # the simulator owns modification times too: Sphinx decides what is outdated by comparing a source's
+        # mtime with the (simulated) time at which it was last read
+        _set_mtimes(root, (EPOCH_US - 86_400_000_000) * 1000)
+        first = sut.sphinx_build(root, tag, root, conf, builder=plan["builder"], parallel=0)
+        if first[0] != "ok":
+            shutil.rmtree(os.path.join(root, "_build", tag), ignore_errors=True)
+            return {"obs": ("first-build-failed", first[1], first[2])}
+        edited = _apply_edits(root, var["edits"])
+        for p in edited:
+            t = (EPOCH_US + 3_600_000_000) * 1000
+            os.utime(p, ns=(t, t))
+        if clk is not None:
+            clk.advance_us(7_200_000_000 - clk.now_us() if clk.now_us() < 7_200_000_000 else 1)
+        seen: list = []
+
+        def hooks(app, _outer=None):  # noqa: F811
+            app.connect("env-before-read-docs", lambda app_, env, docnames: seen.extend(docnames))
+
+        if var.get("second") != "serial":
+            from ..seams import partasks
+
+            sched = partasks.Scheduler(var)
+            partasks.install(sched)
+            parallel = max(2, var["nproc"])
+        r = sut.sphinx_build(root, tag, root, conf, builder=plan["builder"], parallel=parallel, hooks=hooks,
+                             incremental=True)
+        reread = sorted(seen)
+    else:
+        r = sut.sphinx_build(root, tag, root, conf, builder=plan["builder"], parallel=parallel, hooks=hooks)
     shutil.rmtree(os.path.join(root, "_build", tag), ignore_errors=True)
     out = {"obs": r[:3]}
+    if reread is not None:
+        out["reread"] = reread
     if sched is not None:
         out["events"] = sched.events
         out["forks_after_merge"] = sched.forks_after_merge
@@ -304,10 +380,81 @@ def _build(plan, root, var, tag):
     return out
 
 
+def _set_mtimes(root: str, t_ns: int) -> None:
+    for dirpath, dirnames, filenames in os.walk(root):
+        if "_build" in dirnames:
+            dirnames.remove("_build")
+        for fn in filenames:
+            os.utime(os.path.join(dirpath, fn), ns=(t_ns, t_ns))
+
+
+def _apply_edits(root: str, edits: dict) -> list:
+    paths = []
+    for rel, content in sorted(edits.items()):
+        p = os.path.join(root, rel)
+        if content is None:  # touch: only the modification time changes
+            paths.append(p)
+            continue
+        sut.write_tree(root, {rel: content})
+        paths.append(p)
+    return paths
+
+
+def _gen_edits(e, files: dict, proj: dict, docnames: list) -> dict:
+    """1-3 edits of the project between the two builds (JSON-able: {relative path: new text | None=touch})."""
+    edits: dict = {}
+    mds = [d + ".md" for d in docnames if d != "index" and d + ".md" in files]
+    for _ in range(e.choice([1, 2, 3])):
+        kind = e.choice(["rename_heading", "rename_and_link", "rename_and_link", "append_link", "front_matter",
+                         "include_file", "touch", "add_heading"])
+        rel = e.choice(mds)
+        text = edits.get(rel) if isinstance(edits.get(rel), str) else files[rel]
+        if kind == "rename_and_link" and len(mds) >= 2:
+            # a heading changes in one document and another (also re-read) document links to the new slug:
+            # the data must reach the parent from the worker that read the first one, whatever the merge order
+            n = e.randint(1, 99)
+            edits[rel] = text.rstrip("\n") + f"\n\n## Fresh Heading {n}\n\nbody\n"
+            for other in e.sample([m for m in mds if m != rel], k=min(len(mds) - 1, e.choice([1, 2]))):
+                otext = edits.get(other) if isinstance(edits.get(other), str) else files[other]
+                relp = gd.relpath_from(other[:-3], rel[:-3])
+                edits[other] = otext.rstrip("\n") + f"\n\n[]({relp}.md#fresh-heading-{n}) [t]({relp}.md#fresh-heading-{n})\n"
+            continue
+        if kind == "rename_heading":
+            new, n = re.subn(r"(?m)^(#{1,6}) (Intro|Usage|API)$", lambda m: f"{m.group(1)} Renamed {m.group(2)}", text,
+                             count=e.choice([1, 2]))
+            edits[rel] = new if n else text.rstrip("\n") + "\n\n## Renamed Section\n\ntext\n"
+        elif kind == "add_heading":
+            edits[rel] = text.rstrip("\n") + "\n\n## Usage\n\nmore\n\n## New Heading\n\nbody\n"
+        elif kind == "append_link":
+            other = e.choice([d for d in docnames if d + ".md" != rel])
+            relp = gd.relpath_from(rel[:-3], other)
+            edits[rel] = text.rstrip("\n") + (f"\n\n[]({relp}.md#renamed-usage) [x]({relp}.md#usage) "
+                                              f"[]({relp}.md#new-heading) [y]({relp}.md#intro)\n")
+        elif kind == "front_matter":
+            body = text
+            if body.startswith("---\n"):
+                end = body.find("\n---", 4)
+                body = body[end + 4:].lstrip("\n") if end >= 0 else body
+            edits[rel] = "---\nmyst:\n  heading_anchors: 3\n  substitutions: {key1: edited}\n---\n\n" + body
+        elif kind == "include_file":
+            inc = e.choice(proj["includes"])
+            edits[inc] = "# Edited include\n\nnew text {{ key1 }}\n\n## Usage\n"
+        else:
+            edits.setdefault(rel, None)
+    return edits
+
+
 _LINK_SLUG = re.compile(r"\(([\w./-]+)\.md#[\w-]+\)")
 
 
 def _probes(plan, var, res, count, docnames):
+    if var["kind"] == "incremental":
+        chunks = [ev[2] for ev in res.get("events", []) if ev and ev[0] == "chunks" and ev[1] == "read"]
+        if chunks and len(chunks[0]) >= 2:
+            count("probe_incremental_reread_split_over_two_or_more_workers")
+        if res.get("forks_after_merge"):
+            count("probe_fork_happened_after_a_merge")
+        return
     if var["kind"] != "parallel":
         return
     rc = var["read_chunks"]
